@@ -13,8 +13,25 @@
   parentheses with spaces, strip, split on `[\s,]+`, drop empty tokens (`plainTokensOld`); the two
   agree on every line without an apostrophe in front of its comment (`BB.plainTokens_eq_old`,
   Lemmas/FrontLex).
-  Lines containing a non-ASCII character or a `\n` are outside the model (`Err.unsupported`;
-  `read_lines` never produces a line containing `\n`).
+  Text outside ASCII.  Where the real code treats non-ASCII text as DATA it is modelled exactly:
+    * the text of a `string` line (`stringEscape`): the re.sub of fix 71c7339 (a lone backslash in
+      front of a character above U+00FF is doubled, so that it cannot fuse with the `\uXXXX` that
+      stands in for that character), `.encode('latin-1', 'backslashreplace')` (U+0080..U+00FF stay
+      single bytes, anything above becomes `\uxxxx` / `\Uxxxxxxxx`), `.decode('unicode_escape')`
+      (bytes are Latin-1 code points, escapes are processed; an undecodable escape is
+      UnicodeDecodeError, which `lexLine` turns into the AssemblerError of fix b49f1cd);
+    * the message of an `error` line (`errorEscape`): `.encode('utf-8').decode('unicode_escape')`
+      — the UTF-8 bytes are read back as Latin-1, so `é` becomes `Ã©` in the message (the message
+      itself is never compared; the line raises an AssemblerError either way);
+    * the comment of an ordinary line (everything from the `#` that RE_TOKEN takes as a comment):
+      any characters.
+  The boundary: a non-ASCII character in the CODE part of an ordinary line (`codePart`: mnemonic,
+  operands, labels, separators — where Python's `\s`, `\w`, `str.lower`, `int(…, 0)` follow Unicode
+  rules the model does not have: U+00A0 separates tokens, `٣` is the register 3) is
+  `Err.unsupported`, and so is a line whose `error ` / `string ` keyword is preceded by non-ASCII
+  white space.  Inside `string` text, escapes that denote a lone surrogate (`\ud800`; the real code
+  then dies with UnicodeEncodeError in resolve_strings) and `\N{…}` are `unsupported`.
+  A line containing `\n` is outside the model (`read_lines` never produces one).
 -/
 import BB.Expr
 import BB.Item
@@ -98,22 +115,77 @@ def tokGo : Nat → List Char → List Char × List (List Char)
 /-- the ordinary path of `lex_tokens`: `RE_TOKEN.findall(contents)` without the comment -/
 def plainTokens (l : List Char) : List (List Char) := pushChunk (tokGo 0 l)
 
+/-- `chr(v).encode('utf-8')` for a Unicode scalar value -/
+def utf8Enc (v : Nat) : List Nat :=
+  if v ≤ 127 then [v]
+  else if v ≤ 2047 then [v / 64 % 32 + 192, v % 64 + 128]
+  else if v ≤ 65535 then [v / 4096 % 16 + 224, v / 64 % 64 + 128, v % 64 + 128]
+  else [v / 262144 % 8 + 240, v / 4096 % 64 + 128, v / 64 % 64 + 128, v % 64 + 128]
+
+/-- `s.encode('utf-8')`, each byte read back as a Latin-1 character -/
+def utf8AsLatin1 (l : List Char) : List Char :=
+  l.flatMap (fun c => (utf8Enc c.toNat).map Char.ofNat)
+
+/-- `re.sub(r'(?<!\\)((?:\\\\)*)\\(?=[^\x00-\xff])', r'\1\\\\', value)` (fix 71c7339): the last
+    backslash of an odd run of backslashes that directly precedes a character above U+00FF is
+    doubled.  `k` = length of the run of backslashes just passed. -/
+def fixBackslashes : Nat → List Char → List Char
+  | _, [] => []
+  | k, c :: cs =>
+    if c = '\\' then c :: fixBackslashes (k + 1) cs
+    else if k % 2 = 1 ∧ c.toNat > 255 then '\\' :: c :: fixBackslashes 0 cs
+    else c :: fixBackslashes 0 cs
+
+def hexDigitLower (n : Nat) : Char := if n < 10 then Char.ofNat (48 + n) else Char.ofNat (87 + n)
+
+/-- `'%0*x' % (width, n)` -/
+def hexLower : Nat → Nat → List Char
+  | 0, _ => []
+  | w + 1, n => hexDigitLower (n / 16 ^ w % 16) :: hexLower w n
+
+/-- `.encode('latin-1', 'backslashreplace')`, the bytes written as Latin-1 characters -/
+def backslashReplace (l : List Char) : List Char :=
+  l.flatMap (fun c =>
+    if c.toNat ≤ 255 then [c]
+    else if c.toNat ≤ 65535 then '\\' :: 'u' :: hexLower 4 c.toNat
+    else '\\' :: 'U' :: hexLower 8 c.toNat)
+
+/-- the value of a `string` line from the text after the keyword (asm.py, lex_tokens) -/
+def stringEscape (rest : List Char) : Except ExprErr (List Char) :=
+  let x := backslashReplace (fixBackslashes 0 rest)
+  unicodeEscapeAux (x.length + 1) x
+
+/-- the message of an `error` line: `message.encode('utf-8').decode('unicode_escape')` -/
+def errorEscape (rest : List Char) : Except ExprErr (List Char) :=
+  let x := utf8AsLatin1 rest
+  unicodeEscapeAux (x.length + 1) x
+
+/-- the part of an ordinary line in front of its comment, as RE_TOKEN sees it (`k` = characters of
+    a quoted character still to be taken as they are — the same bookkeeping as `tokGo`) -/
+def codePart : Nat → List Char → List Char
+  | _, [] => []
+  | k + 1, c :: cs => c :: codePart k cs
+  | 0, c :: cs =>
+    if c = '#' then []
+    else c :: codePart (if c = '\'' then (litLen cs).getD 0 else 0) cs
+
 def lexTokens (l : List Char) : Except Err (List String) :=
-  if ¬ l.all isAsciiC then .error (.unsupported "non-ascii")
-  else if l.contains '\n' then .error (.unsupported "newline in line")
+  if l.contains '\n' then .error (.unsupported "newline in line")
   else
     match matchKeyword "error".toList l with
     | some rest =>
-      match unicodeEscape rest with
+      match errorEscape rest with
       | .ok m => .ok ["error", String.ofList m]
       | .error e => .error (ofExprErr e)
     | none =>
       match matchKeyword "string".toList l with
       | some rest =>
-        match unicodeEscape rest with
+        match stringEscape rest with
         | .ok m => .ok ["string", String.ofList m]
         | .error e => .error (ofExprErr e)
-      | none => .ok ((plainTokens l).map String.ofList)
+      | none =>
+        if ¬ (codePart 0 l).all isAsciiC then .error (.unsupported "non-ascii outside string text and comments")
+        else .ok ((plainTokens l).map String.ofList)
 
 def lexTokensS (s : String) : Except Err (List String) := lexTokens s.toList
 
